@@ -19,7 +19,7 @@ TYPES = {
     "Choice": [("a,ab,abc,abcd,vwxyz", ["a", "ab", "abc", "abcd", "vwxyz", "b", "AB", "ab "])],
     "Constant": [("abc", ["abc", "ab", "abcd", "ABC", "abc ", " abc"])],
 }
-LENGTHS = ["", "3", "2...", "...4", "1...2, 5", "0...3", "4...5"]
+LENGTHS = ["", "3", "2...", "...4", "1...2, 5", "0...3", "4...5", "0", "...0", "0, 5...7"]
 ALLOWED = [None, "32...126", "97...122", "32, 48...57, 97...122", "...64"]
 FORMATS = ["delimited", "fixed", "excel", "ods"]
 
@@ -99,7 +99,7 @@ def cells_for(base, allowed):
 
 def run(ctx):
     ctx.rule = ("exhaustive product: 5 field types (Text, Integer with/without rule, Choice, Constant, harness plugin) x 4 formats x "
-                "{empty allowed, not} x 7 length declarations (fixed: exact widths 1..5) x 5 allowed-character ranges x cells {empty, 1-4 blanks, tab, "
+                "{empty allowed, not} x 10 length declarations (incl. upper limit 0) (fixed: exact widths 1..5) x 5 allowed-character ranges x cells {empty, 1-4 blanks, tab, "
                 "values inside/outside the length, exactly one disallowed character at every position}; distinct = distinct (declaration, cell); "
                 "non-trivial = every case (each is a guard decision)")
     ctx.exhaustive = True
